@@ -1,2 +1,77 @@
-(* Properties_C13.v -- placeholder until the testbench model lands. *)
-From HexVerif Require Import Isa.
+(* Properties_C13.v -- C13: RTL testbench results do not depend on the power-on state.
+   TbModel = hextb.cpp's load()/run()/handleSyscall() (hand model, tied by tools/c13.py) driving the generated RTL
+   (RtlHex.design, regenerated from the working tree on every run) with Verilator's trigger semantics; a power-on state
+   [init] = pc, areg, breg, oreg, every memory word, and the four hidden trigger bits.  [Current] are the constants of
+   hextb.cpp as it is now, [Legacy] those of the pinned tree. *)
+From Coq Require Import ZArith List String.
+From HexVerif Require Import WMap Isa Vexp RtlSem RtlIsa TbModel TbProofs.
+From HexVerif.gen Require RtlHex.
+Import ListNotations.
+Local Open Scope Z_scope.
+
+(* 1. the reset window: for EVERY power-on state, image and input, the ten evaluations of times 1..10 service no system
+   call (no output, no input consumed, loop not left) and end in the canonical boot state: registers 0, memory exactly
+   as load() left it (so no store was performed, and the loaded region holds the loaded words).  Depends on the
+   generated design: registers clear under i_rst = 1 (C03_reset_clears_registers) and memory.sv's write is disabled
+   under i_rst = 1 (RtlC03.rtl_no_write_in_reset -- fails if the !i_rst qualification is removed). *)
+Theorem C13_boot_canonical : forall (i : init) (file : list Z) (inp : inputs),
+  let st := ticks Current RtlHex.design 10 (power_on i file) in
+  run Current RtlHex.design 10 0 (power_on i file) inp [] = ([], inp, st, TNoFuel) /\
+  (forall k, run Current RtlHex.design (10 + k) 0 (power_on i file) inp [] = run Current RtlHex.design k 0 st inp []) /\
+  r_pc (t_s st) = 0 /\ r_areg (t_s st) = 0 /\ r_breg (t_s st) = 0 /\ r_oreg (t_s st) = 0 /\
+  r_mem (t_s st) = r_mem (t_s (power_on i file)) /\
+  (forall j, (j < List.length (loaded_words file))%nat -> rd (r_mem (t_s st)) (Z.of_nat j) = nth j (loaded_words file) 0) /\
+  t_time st = 10 /\ t_clk st = false /\ t_exit st = 0.
+Proof. exact boot_canonical. Qed.
+Print Assumptions C13_boot_canonical.
+
+(* 2. execution begins at address 0: in the boot state the fetched byte is the first image byte, and the evaluation of
+   time 11 is one clock edge of processor and memory from that state *)
+Theorem C13_fetch_from_zero : forall (i : init) (file : list Z) (b0 : Z) (rest : list Z),
+  bytes_ok file -> skipn 4 file = b0 :: rest ->
+  let st := ticks Current RtlHex.design 10 (power_on i file) in
+  r_pc (t_s st) = 0 /\ wire RtlHex.design (t_s st) n_fdata = b0 /\
+  t_s (tick Current RtlHex.design st) = cycle RtlHex.design (t_s st).
+Proof. exact fetch_from_zero. Qed.
+Print Assumptions C13_fetch_from_zero.
+
+(* 3. the observable result (events = bytes written per stream, bytes read, exit word; input left unread; how run() ended)
+   is the same for every two power-on states, for every amount of fuel (loop iterations), provided the binary and input
+   are well-behaved: the ISA trace from the loaded words is defined, stays in range, a READ does not overwrite its own
+   SVC, the first instruction is not a system call, and no word outside the loaded region is read before it is written
+   (non-image memory differs between power-on states). *)
+Theorem C13_seed_independent : forall (fuel : nat) (i1 i2 : init) (file : list Z) (inp : inputs),
+  bytes_ok file -> well_behaved (Z.of_nat (List.length (loaded_words file))) (loaded_words file) inp ->
+  obs (run Current RtlHex.design fuel 0 (power_on i1 file) inp []) = obs (run Current RtlHex.design fuel 0 (power_on i2 file) inp []).
+Proof. exact seed_independent. Qed.
+Print Assumptions C13_seed_independent.
+
+(* ... and that result is the ISA's, presented in the testbench's rhythm *)
+Theorem C13_run_is_isa : forall (fuel : nat) (i : init) (file : list Z) (inp : inputs) (ws : list Z) (D : Z -> bool),
+  bytes_ok file -> agree D (mem (boot ws)) (r_mem (t_s (power_on i file))) ->
+  fetch (boot ws) <> 211 -> (forall n, wb_mon D n (boot ws) inp = true) ->
+  tb_view (run Current RtlHex.design fuel 0 (power_on i file) inp []) = isa_tb fuel (boot ws) inp.
+Proof. exact tb_is_isa_tb. Qed.
+Print Assumptions C13_run_is_isa.
+
+(* 4. with the pinned constants (reset from time 2, requests sampled on every high clock phase, unqualified memory write)
+   the property is false: two power-on states of the same image and input with different results *)
+Theorem C13_pinned_boot_refuted : exists (i1 i2 : init) (file : list Z) (inp : inputs) (fuel : nat),
+  outcome (run Legacy RtlHex.design fuel 0 (power_on i1 file) inp []) <> outcome (run Legacy RtlHex.design fuel 0 (power_on i2 file) inp []).
+Proof. exact pinned_boot_refuted. Qed.
+Print Assumptions C13_pinned_boot_refuted.
+
+(* ------------------------------------------------------------------ non-vacuity *)
+(* the refutation's witnesses and what the current constants do from the same power-on states *)
+Example C13_witnesses :
+  outcome (run Legacy RtlHex.design 200 0 (power_on (planted 13 0 false) exit7_file) no_input []) = ([Exit 7], TReturned 7) /\
+  outcome (run Legacy RtlHex.design 200 0 (power_on (planted 13 0 true) exit7_file) no_input []) = ([Exit 3553874899], TReturned (-741092397)) /\
+  outcome (run Legacy RtlHex.design 200 0 (power_on (planted 13 1 true) exit7_file) no_input []) = ([Write 211 3553874899; Exit 7], TReturned 7) /\
+  outcome (run Current RtlHex.design 200 0 (power_on (planted 13 0 false) exit7_file) no_input []) = ([Exit 7], TReturned 7) /\
+  outcome (run Current RtlHex.design 200 0 (power_on (planted 13 0 true) exit7_file) no_input []) = ([Exit 7], TReturned 7) /\
+  outcome (run Current RtlHex.design 200 0 (power_on (planted 13 1 true) exit7_file) no_input []) = ([Exit 7], TReturned 7).
+Proof. exact legacy_witness. Qed.
+(* the hypotheses of C13_seed_independent hold for `proc main() is exit(7)` as compiled by xcmp *)
+Example C13_hypotheses_satisfiable :
+  bytes_ok exit7_file /\ well_behaved (Z.of_nat (List.length (loaded_words exit7_file))) (loaded_words exit7_file) no_input.
+Proof. split; [exact exit7_bytes_ok | exact exit7_well_behaved_loaded]. Qed.
